@@ -188,6 +188,43 @@ def run(prog: Program, col: Collector, tier: str, refs: Optional[Refs] = None, c
     numerics.run_agreement(prog, col, refs, cat)
 
     # ---------------------------------------------------------------- R15.11 Python bodies of ops whose identity comes from their name
+    # ---------------------------------------------------------------- R15.12 a parameter that holds a bound is not called
+    col.rule("R15.12", "an op implementation does not call one of its own value parameters (a parameter shadowing the function it meant)", floor=40)
+    n_impl = 0
+    impls = []
+    for o in cat.ops.values():
+        if isinstance(o.impl, ast.FunctionDef) and o.impl in prog.funcs_by_node:
+            impls.append((o, prog.funcs_by_node[o.impl], "default implementation"))
+    for r in cat.registrations:
+        if r.registry in cat.ops and r.method == "register" and r.target is not None and not isinstance(r.target.node, ast.Lambda):
+            impls.append((cat.ops[r.registry], r.target, "registered implementation"))
+    seen_impl = set()
+    for o, f, how in impls:
+        if f.fq in seen_impl:
+            continue
+        seen_impl.add(f.fq)
+        n_impl += 1
+        a = f.node.args
+        value_params = set()
+        pos = a.posonlyargs + a.args
+        for arg, d in zip(pos[len(pos) - len(a.defaults):], a.defaults):
+            if isinstance(d, ast.Constant):
+                value_params.add(arg.arg)
+        for arg, d in zip(a.kwonlyargs, a.kw_defaults):
+            if isinstance(d, ast.Constant):
+                value_params.add(arg.arg)
+        stores = {x.id for x in walk_no_nested(f.node) if isinstance(x, ast.Name) and isinstance(x.ctx, ast.Store)}
+        called = [c for c in walk_no_nested(f.node) if isinstance(c, ast.Call) and isinstance(c.func, ast.Name) and c.func.id in value_params - stores]
+        construct = f"{f.fq}::parameters are values"
+        if called:
+            c = called[0]
+            col.violation(construct, f"`{norm(c)[:50]}` calls the parameter `{c.func.id}` of `{f.name}`, whose default is a constant (it holds a bound / an option, not a function): "
+                          f"inside `{f.name}` the name no longer refers to the op or builtin of that name, so the {how} of `{o.var}` raises TypeError whenever it runs "
+                          "(Python scalars are not served by the array registration)", f.loc(c))
+        else:
+            col.ok(construct, "no parameter with a constant default is called", f.loc(), nontrivial=False)
+    col.cur.analysed["op_implementations"] = n_impl
+
     from . import algebra
     algebra.r_commutative_default_symmetric(prog, col, refs, cat, "R15.11")
     for fq, why in sorted(axioms.UNVERIFIED.items()):
